@@ -6,10 +6,10 @@ props = {json.loads(l)["id"]: json.loads(l) for l in open(os.path.join(ROOT, "pr
 
 # id -> (technique, level text, level note, design ref)
 CLAIMS = {}
-TRANSLATED = {"C05": "G3: p-value tables of two_sample_core, one_sample, corr, sim_corr, stratified_permutationtest, stratified_two_sample; G9: the 15 repetition loops of nine functions as five-instruction programs accepted by the proved-sound checker shape_ok (Lib/LoopShape.v)",
+TRANSLATED = {"C05": "G3: p-value tables of two_sample_core, one_sample, corr, sim_corr, stratified_permutationtest, stratified_two_sample; G9: the 17 repetition loops of eleven functions as five-instruction programs accepted by the proved-sound checker shape_ok (Lib/LoopShape.v)",
               "C14": "G3: alternative chains of hypergeometric and binomial_p; G5: their argument guards",
               "C01": "G4: k_sample p-value formulas; G9: repetition loops of two_sample_core, one_sample, corr, k_sample", "C02": "G4: bivariate_k_sample p-value formulas; G9: repetition loops of bivariate_k_sample, sim_corr, stratified_permutationtest, stratified_two_sample",
-              "C07": "G4: npc row p-values, final count, sim_npc partial p-values", "C10": "G4: westfall_young raw / permutation / adjusted p-value assignments",
+              "C07": "G4: npc row p-values, final count, sim_npc partial p-values; G9: the repetition loop of sim_npc", "C10": "G4: westfall_young raw / permutation / adjusted p-value assignments; G9: the repetition loop of westfall_young",
               "C11": "G4: adjust_p base expressions", "C12": "G4: two-sided level split", "C13": "G4: two-sided level split; G8: the two bisection loops",
               "C15": "G4: Wald thresholds; G7: loop test and decision chain of sprt", "C18": "G4: simulate_ts_dist p-value, per-item agreement count and rho_s of compute_ts; G9: the two repetition loops of simulate_ts_dist",
               "C16": "G6: potential-outcome tables of potential_outcomes, two_sample, two_sample_shift",
